@@ -53,7 +53,7 @@ PROFILES = {
     "C12": dict(tags={"object", "exit", "output"}, names={"commit", "log", "cat-file"},
                 weights={"commit": 20, "log": 6, "cat-file": 8, "add": 18, "edit": 24}),
     "C13": dict(tags={"output", "exit"}, names={"status"},
-                weights={"status": 18, "edit": 36, "add": 12, "commit": 5, "rm": 3}, ignore=True),
+                weights={"status": 18, "edit": 36, "add": 12, "commit": 5, "rm": 3}, ignore=True, fd_conflicts=True),
     "C14": dict(tags={"output", "exit"}, names={"log"},
                 weights={"log": 14, "commit": 20, "add": 18, "reset": 5, "switch": 4, "switch-c": 3, "edit": 22},
                 # few files with few contents: a later commit often has the same snapshot as an earlier one
